@@ -70,6 +70,9 @@ func (m *objectMap) flush(db *DB) (err error) {
 	for _, o := range m.m {
 		if e := db.writeObject(o); e != nil {
 			err = e
+			// an object which could not be written stays in the list
+			// of objects to save, otherwise its pending write is lost
+			continue
 		}
 		// we delete object from the list of objects to save
 		m.delete(o.UUID())
@@ -526,8 +529,10 @@ func (db *DB) search(o Object, field, operator string, value interface{}, constr
 
 func (db *DB) flush(o Object) (err error) {
 
-	if e := db.writeObject(o); e != nil {
-		err = e
+	// an object which could not be written stays in the list
+	// of objects to save, otherwise its pending write is lost
+	if err = db.writeObject(o); err != nil {
+		return
 	}
 
 	// we delete object from the list of objects to save
